@@ -14,6 +14,7 @@ func vc15Quads() []vc15Quad {
 		// reference points late in a long programme and 39 ms apart, odd nanosecond values: any formula that subtracts
 		// two products of that size loses the intercept
 		{21*h + 123456789, 22*h + 987654321, 21*h + 123456789 + 2997*13000, 22*h + 987654321 + 3125*13000, 3125, 2997},
+		{5 * s, 1 * s, 9 * s, 5 * s, 1, 1},                      // slope 1, desired before actual: the images of early instants are negative
 		{1 * s, 3 * s, 3 * s, 5 * s, 1, 1},                      // slope 1, offset
 		{0, 5 * s, 2 * h, 5*s + h, 1, 2},                        // slope 1/2
 		{10 * s, 0, 20 * s, 20 * s, 2, 1},                       // slope 2
@@ -28,7 +29,7 @@ func vc15Quads() []vc15Quad {
 func VH_C15_Concrete() {
 	vmode("int")
 	qs := vc15Quads()
-	q := qs[choose(vbound("quadruples", 6, len(qs)))]
+	q := qs[choose(vbound("quadruples", 7, len(qs)))]
 	t1 := nondetInt64(0, 24*3600*1000000000)
 	t2 := nondetInt64(0, 24*3600*1000000000)
 	vassume(t1 <= t2)
@@ -115,7 +116,7 @@ func VH_C15_List() {
 func VH_C15_OrderExact() {
 	vsolver("cvc5")
 	qs := vc15Quads()
-	q := qs[[]int{3, 8, 0}[choose(vbound("quadruples", 2, 3))]] // two with a fractional intercept, one with intercept 0
+	q := qs[[]int{3, 9, 0}[choose(vbound("quadruples", 2, 3))]] // two with a fractional intercept, one with intercept 0
 	t := nondetInt64(0, 1<<31-4)
 	it := &Item{StartAt: time.Duration(t), EndAt: time.Duration(t)}
 	s := &Subtitles{Items: []*Item{it}}
